@@ -3,6 +3,7 @@ package query
 import (
 	"bytes"
 	"fmt"
+	"math/big"
 	"strings"
 	"sync"
 	"time"
@@ -198,7 +199,17 @@ func serializeFloat(buf *bytes.Buffer, s string) {
 }
 
 func serializeDatetime(buf *bytes.Buffer, t time.Time) {
-	serializeDatetimeFromUnixNano(buf, t.UnixNano())
+	n := t.UnixNano()
+	if time.Unix(0, n).Equal(t) {
+		serializeDatetimeFromUnixNano(buf, n)
+		return
+	}
+
+	// UnixNano is not defined outside the years 1678 to 2262
+	exact := new(big.Int).Mul(big.NewInt(t.Unix()), big.NewInt(1000000000))
+	exact.Add(exact, big.NewInt(int64(t.Nanosecond())))
+	buf.Write([]byte{91, 68, 93})
+	buf.WriteString(exact.String())
 }
 
 func serializeDatetimeFromUnixNano(buf *bytes.Buffer, t int64) {
